@@ -114,7 +114,7 @@ def single_check(prop, tier, seed, oracles, corpus, nq, nt, rule, variant='plain
             if post: post(ck, c, r)
         probes_enc(ck, rs)
         rounds += 1
-        if tier == 'quick' or ck.time_left() < 200:
+        if tier == 'quick' or rounds >= ck.rounds:
             break
     return ck.finish()
 
@@ -620,7 +620,7 @@ def check_c23(tier, seed):
             if e.get('release_hold') is not None and c['srm']['extra_refs']: ck.ev.probe('multi_holder_release')
             if e.get('shutdown_returns'): ck.ev.probe('consumer_returned_on_shutdown', e['shutdown_returns'])
         rounds += 1
-        if tier == 'quick' or ck.time_left() < 300: break
+        if tier == 'quick' or rounds >= ck.rounds: break
     # memory-access preemption (build variant "mem"): interleavings inside the SRM's critical sections and in whatever it does outside them
     core.build('mem'); mcases = []
     for i in range(600 if tier == 'quick' else 8000):
